@@ -150,10 +150,11 @@ func a1RawText(steps []*StepVars) *smt.Term {
 
 // LoopRun bundles the extracted relation for one harness variant.
 type LoopRun struct {
-	In    *sym.Interp
-	Steps *Steps
-	T     *TRel
-	PS    *PolicySyms
+	InputSuffix string // appended to every witness input before it is replayed
+	In          *sym.Interp
+	Steps       *Steps
+	T           *TRel
+	PS          *PolicySyms
 }
 
 func (c *Ctx) loopSetup(ev *Evidence, harness string, maxAttrs int, names ...string) (*LoopRun, error) {
@@ -193,7 +194,10 @@ func (c *Ctx) loopSetup(ev *Evidence, harness string, maxAttrs int, names ...str
 		"(*Policy).sanitizeAttrs is replaced by a stub returning an arbitrary attribute list (0 or 1 attribute of arbitrary content); its real behaviour is the subject of C02/C03/C07/C10-C12",
 		"policy table keys are lower-case (every builder method lower-cases its arguments)")
 	if t.Unknown > 0 {
-		ev.Inconclusive(fmt.Sprintf("%d step paths with undecided feasibility were kept", t.Unknown))
+		// keeping a path whose feasibility the solvers did not decide only adds
+		// behaviours: "holds" verdicts stay sound, and every counterexample is
+		// replayed natively before it is reported
+		ev.Bound("step_paths_feasibility_undecided_kept", t.Unknown)
 	}
 	return &LoopRun{In: in, Steps: steps, T: t, PS: collectPolicySyms(t)}, nil
 }
@@ -569,12 +573,13 @@ func (c *Ctx) searchWitness(lr *LoopRun, ev *Evidence, label string, maxK int, a
 				blocks = append(blocks, smt.Not(smt.Eq(steps[k-1].Data, smt.StrC(w.Tokens[k-1].Data))))
 				continue
 			}
+			input += lr.InputSuffix
 			req := NativeReq{"op": "sanitize", "policy": w.policyDSL(), "input": input}
 			res, nerr := RunNative(c.Repo, c.VerifDir, []NativeReq{req}, "")
 			if nerr != nil {
 				return nil, nil, nil, nerr
 			}
-			if !w.tokensMatch(decodeTokens(res[0]["in_tokens"])) {
+			if _, panicked := res[0]["panic"]; !panicked && !w.tokensMatch(decodeTokens(res[0]["in_tokens"])) {
 				// the rendered input is not read back as the model's tokens: exclude these names and retry
 				ev.Sample(map[string]interface{}{"query": label, "note": "witness input not tokenised as modelled; blocked", "input": input})
 				var ds []*smt.Term
